@@ -81,7 +81,11 @@ func (c gateCfg) key() string {
 	if c.Principal != "" {
 		p = "p1"
 	}
-	return fmt.Sprintf("%s:m%dr%d:%s", c.Role, b2i(c.Mut), b2i(c.RT), p)
+	role := c.Role
+	if role == "" {
+		role = "(empty)"
+	}
+	return fmt.Sprintf("%s:m%dr%d:%s", role, b2i(c.Mut), b2i(c.RT), p)
 }
 
 func b2i(b bool) int {
